@@ -212,12 +212,23 @@ def arch_of(raw):
     return _arch_cache[raw]
 
 
-def _loader_of(fs):
+_S = None                                                 # the Streams() of the running evaluate()
+# a loader hands out freshly opened streams: only the kinds that start at offset 0
+LOADER_KINDS = ('bytesio', 'file', 'file_small', 'mmap', 'gzip', 'decoy_fd')
+
+
+def _stream(data, sk='bytesio'):
+    if sk == 'bytesio' or _S is None:
+        return io.BytesIO(data)
+    return _S.open(data, sk)
+
+
+def _loader_of(fs, sk='bytesio'):
     if fs is None:
         return None
     def loader(name):
         if name in fs:
-            return io.BytesIO(fs[name])
+            return _stream(fs[name], sk if sk in LOADER_KINDS else 'file')
         raise FileNotFoundError(name)
     return loader
 
@@ -235,7 +246,7 @@ def _slots_of(di, captured):
     return out
 
 
-def impl_view(img, fs, relocate, follow, elffile=None):
+def impl_view(img, fs, relocate, follow, elffile=None, sk='bytesio'):
     """[cfg, slots, sup] or ['err', class]; relocations are observed, not performed.  With `elffile` the call is made
     on that (already used) ELFFile object instead of a fresh one"""
     from elftools.elf.elffile import ELFFile
@@ -251,7 +262,7 @@ def impl_view(img, fs, relocate, follow, elffile=None):
         captured[id(stream)] = (idx, stream.getvalue())
     RelocationHandler.apply_section_relocations = spy
     try:
-        e = elffile if elffile is not None else ELFFile(io.BytesIO(img), _loader_of(fs))
+        e = elffile if elffile is not None else ELFFile(_stream(img, sk), _loader_of(fs, sk))
         di = e.get_dwarf_info(relocate_dwarf_sections=relocate, follow_links=follow)
         cfg = [int(di.config.little_endian), di.config.default_address_size, di.config.machine_arch]
         sup = 'none'
@@ -268,10 +279,10 @@ def impl_view(img, fs, relocate, follow, elffile=None):
         RelocationHandler.apply_section_relocations = orig
 
 
-def impl_dump(img, fs, follow=True, eh=True, elffile=None):
+def impl_dump(img, fs, follow=True, eh=True, elffile=None, sk='bytesio'):
     from elftools.elf.elffile import ELFFile
     try:
-        e = elffile if elffile is not None else ELFFile(io.BytesIO(img), _loader_of(fs))
+        e = elffile if elffile is not None else ELFFile(_stream(img, sk), _loader_of(fs, sk))
         di = e.get_dwarf_info(follow_links=follow)
         h, c = U.full_dump(di, eh=eh)
         return [h, c['cus'], c['dies'], c['lines'], c['cfi'], c['ehcfi'] if eh else 0, c['tus']]
@@ -345,6 +356,11 @@ def gen(ctx):
         cases.append(('plain', ['seed:' + name, 0, 0, 0]))
         for ext in ('zlib', 'zgnu'):
             cases.append(('objcopy', ['seed:' + name, ext]))
+    from tools.lib.streams import KINDS as STREAM_KINDS
+    picked = [('seed:', n) for n in seeds] + [('test:', n) for n in tests[::ctx.scale(5, 1)]]
+    for k, (pre, name) in enumerate(picked):              # every stream kind meets get_dwarf_info (and the loader)
+        src = pre + name
+        cases.append(('plain', [src, 1, 1, 1, STREAM_KINDS[1 + k % (len(STREAM_KINDS) - 1)]]))
     for name in tests:
         for reloc, follow, ld in ((1, 1, 1), (1, 1, 0), (0, 0, 1), (1, 0, 0)):
             cases.append(('plain', ['test:' + name, reloc, follow, ld]))
@@ -402,6 +418,8 @@ def gen(ctx):
     for k, name in enumerate(objs):
         cases.append(('chain', ['seed:' + name, 'seed:' + seeds[(k + 2) % len(seeds)], ['alt', 'sup'][k % 2], 'own',
                                 rng.getrandbits(32), 0]))
+        cases.append(('chain', ['seed:' + name, 'seed:' + seeds[(k + 3) % len(seeds)], ['sup', 'alt'][k % 2], 'own',
+                                rng.getrandbits(32), k % 2, STREAM_KINDS[1 + k % (len(STREAM_KINDS) - 1)]]))
         cases.append(('link', ['seed:' + name, 'own', 'right', 1, 1, 'plain', 0]))
         if k % 2 == 0:
             cases.append(('chain', ['seed:' + name, 'seed:' + seeds[(k + 5) % len(seeds)], ['sup', 'alt'][k % 2], 'own',
@@ -438,6 +456,7 @@ def gen(ctx):
             for enc in ('alt', 'sup'):
                 for ref in ('strp', 'line_strp'):
                     cases.append(('lnsup', [le, is64, enc, ref, rng.getrandbits(32)]))
+                    cases.append(('lnsup', [le, is64, enc, ref, rng.getrandbits(32), rng.choice(STREAM_KINDS[1:])]))
     # call sequences on ONE ELFFile object: the answer to a call depends on its own arguments only
     seqs = [[(1, 1), (1, 0)], [(1, 0), (1, 1)], [(1, 1), (0, 0), (1, 1), (0, 1)], [(0, 0), (1, 1), (1, 0), (0, 1), (0, 0)]]
     for k in range(0, len(seeds), ctx.scale(3, 1)):
@@ -469,6 +488,22 @@ def gen(ctx):
                 for strict in (0, 1):
                     for ld in (0, 1):
                         cases.append(('presence_tt', [le, is64, mask, strict, ld, rng.getrandbits(16)]))
+    # ... x the section TYPE of each name (presence is decided by NAMES: an SHT_NOBITS .eh_frame / .debug_info, as
+    # objcopy --only-keep-debug leaves them, or any other type, counts) x the stream kind of the file
+    TT_TYPES = (1, 8, 7, 0x60000001)
+    for le in (0, 1):
+        for is64 in (0, 1):
+            for mask in range(1, 64):
+                for strict in (0, 1):
+                    types = [rng.choice(TT_TYPES) for _ in range(6)]
+                    types[(mask + strict) % 6] = 8
+                    cases.append(('presence_tt', [le, is64, mask, strict, rng.randrange(2), rng.getrandbits(16), types,
+                                                  rng.choice(STREAM_KINDS)]))
+    for t in TT_TYPES:                                    # each name alone, each type, both modes
+        for k in range(6):
+            for strict in (0, 1):
+                cases.append(('presence_tt', [k % 2, (k // 2) % 2, 1 << k, strict, 0, rng.getrandbits(16),
+                                              [t] * 6, 'bytesio']))
     # synthetic payloads, all class / byte order combinations, phantom bytes
     for le in (0, 1):
         for is64 in (0, 1):
@@ -605,6 +640,17 @@ def strip_debug(elf, link_body):
 # Every case is a generator: it yields lists of driver requests and receives the answers, so that the
 # requests of all cases of a round go to the driver in one (parallel) batch.
 def evaluate(ctx, cases):
+    global _S
+    from tools.lib.streams import Streams
+    with Streams(prefix='pv-c11-streams-') as S:
+        _S = S
+        try:
+            _evaluate(ctx, cases)
+        finally:
+            _S = None
+
+
+def _evaluate(ctx, cases):
     drv = ctx.driver
     gens = []
     for kind, a in cases:
@@ -625,6 +671,8 @@ def evaluate(ctx, cases):
         res = pbatch(drv, reqs)
         for g, (st, n) in zip(active, spans):
             _advance(ctx, g, res[st:st + n])
+        if _S is not None:
+            _S.drop_files()
 
 
 def base_kind(kind):
@@ -643,7 +691,7 @@ def base_kind(kind):
     return best
 
 
-KIND_ALIAS = {'presence_independent': 'presence_file'}      # NB 'presence_spec' may stem from presence or presence_tt: the abstract's length tells
+KIND_ALIAS = {'presence_independent': 'presence_file', 'presence_offer': 'presence_tt'}      # NB 'presence_spec' may stem from presence or presence_tt: the abstract's length tells
 
 
 def _advance(ctx, g, answers):
@@ -708,10 +756,12 @@ def _elf(img):
 
 
 def h_plain(ctx, kind, a):
-    src, relocate, follow, ld = a
+    src, relocate, follow, ld = a[:4]
+    sk = a[4] if len(a) > 4 else 'bytesio'
+    ctx.bump('stream_kind', sk)
     img = _load(src)
     fs = fs_closure(img, dir_lookup(src)) if ld else None
-    iv = impl_view(img, fs, bool(relocate), bool(follow))
+    iv = impl_view(img, fs, bool(relocate), bool(follow), sk=sk)
     if len(img) > MODEL_MAX or any(len(v) > MODEL_MAX for v in (fs or {}).values()):
         ctx.bump('model_skipped_large', kind)
         icore, iextra = split_impl(iv)
@@ -996,6 +1046,8 @@ def h_chain(ctx, kind, a):
     supplementary file it names, resolved by the same loader (C11_view_two_hop)"""
     main_src, sup_src, enc, variant, seed = a[:5]
     relocate = a[5] if len(a) > 5 else 1
+    sk = a[6] if len(a) > 6 else 'bytesio'
+    ctx.bump('stream_kind', sk)
     rng = _mk_rng(seed)
     if variant == 'own':
         main, supimg = _elf(_load(main_src)), _load(sup_src)
@@ -1020,7 +1072,7 @@ def h_chain(ctx, kind, a):
     stripped = strip_debug(delf, body)
     fs = dict(extra)
     fs[dbgname] = dbg
-    iv = impl_view(stripped, fs, bool(relocate), True)
+    iv = impl_view(stripped, fs, bool(relocate), True, sk=sk)
     if relocate:
         want = impl_dump(dbg, fs, eh=False)              # the debug file opened directly with the same loader
         ctx.record('chain_dump', a, impl=impl_dump(stripped, fs, eh=False), spec=want, model=None, in_domain=want[0] != 'err',
@@ -1175,11 +1227,30 @@ def _line_unit(le, addr_size, form, dir_offs, files):
     return struct.pack(en + 'I', len(rest)) + rest
 
 
-def _cu_with_stmt_list(le, addr_size):
+def _cu_with_stmt_list(le, addr_size, attrs=()):
+    """a DWARF 5 compile unit whose only DIE has DW_AT_stmt_list 0 and then `attrs`: (attribute, form, value) with an
+    int value written as a 4-byte offset and a bytes value as an inline string"""
     en = '<' if le else '>'
-    abbrev = bytes([1, 0x11, 0, 0x10, 0x17, 0, 0, 0])                       # CU, no children, DW_AT_stmt_list sec_offset
-    rest = struct.pack(en + 'H', 5) + bytes([1, addr_size]) + struct.pack(en + 'I', 0) + bytes([1]) + struct.pack(en + 'I', 0)
+    abbrev = bytes([1, 0x11, 0, 0x10, 0x17])                                  # CU, no children, DW_AT_stmt_list sec_offset
+    die = bytes([1]) + struct.pack(en + 'I', 0)
+    for at, form, val in attrs:
+        abbrev += _uleb(at) + _uleb(form)
+        die += struct.pack(en + 'I', val) if isinstance(val, int) else val + b'\0'
+    abbrev += bytes([0, 0, 0])
+    rest = struct.pack(en + 'H', 5) + bytes([1, addr_size]) + struct.pack(en + 'I', 0) + die
     return abbrev, struct.pack(en + 'I', len(rest)) + rest
+
+
+def _top_die_strings(img, fs, sk='bytesio', twice=False):
+    from elftools.elf.elffile import ELFFile
+    e = ELFFile(_stream(img, sk), _loader_of(fs, sk))
+    di = e.get_dwarf_info()
+    out = []
+    for rnd_ in range(2 if twice else 1):                # a second pass over the same unit object
+        for cu in di.iter_CUs():
+            die = cu.get_top_DIE()
+            out.append([[a.name, bytes(a.value)] for a in die.attributes.values() if isinstance(a.value, bytes)])
+    return out
 
 
 def _line_names(img, fs):
@@ -1194,7 +1265,9 @@ def _line_names(img, fs):
 
 def h_lnsup(ctx, kind, a):
     """line tables behind a supplementary link = the same tables stored plainly"""
-    le, is64, enc, ref, seed = a
+    le, is64, enc, ref, seed = a[:5]
+    sk = a[5] if len(a) > 5 else 'bytesio'
+    ctx.bump('stream_kind', sk)
     rng = _mk_rng(seed)
     word = lambda n, alpha: bytes(rng.choice(alpha) for _ in range(n))
     lens = [rng.randrange(1, 12) for _ in range(5)]
@@ -1209,7 +1282,13 @@ def h_lnsup(ctx, kind, a):
     s3, _ = table(b'0123456789')                         # decoys in the primary file's own tables
     dirs, files = offs[:2], [(offs[2], 0), (offs[3], 1), (offs[4], 1)]
     asz = 8 if is64 else 4
-    abbrev, info = _cu_with_stmt_list(bool(le), asz)
+    form = 0x1d if enc == 'sup' else 0x1f21                # DW_FORM_strp_sup / DW_FORM_GNU_strp_alt
+    # one unit referring to its own .debug_str (DW_FORM_strp) and to the supplementary one at the SAME offsets, both orders
+    cut = lambda t, o: t[o:t.index(b'\0', o)]
+    refs = [(0x25, form, offs[0]), (0x03, 0x0e, offs[0]), (0x1b, 0x0e, offs[1]), (0x6e, form, offs[1]),
+            (0x5a, form, offs[4]), (0x2007, 0x0e, offs[4])]
+    abbrev, info = _cu_with_stmt_list(bool(le), asz, refs)
+    abbrev_b, info_b = _cu_with_stmt_list(bool(le), asz, [(at, 0x08, cut(s1 if f == form else s3, o)) for at, f, o in refs])
     supname = b'sup/' + word(rng.randrange(1, 8), b'abcdefgh') + b'.sup'
     ident = bytes(rng.getrandbits(8) for _ in range(20))
     alt, sup0, sup1 = yield [['altlink_body', supname, ident], ['debugsup_body', le, 5, 0, supname, bytes([20]) + ident],
@@ -1218,20 +1297,24 @@ def h_lnsup(ctx, kind, a):
     if enc == 'sup':
         supsecs.append((b'.debug_sup', 1, 0, 0, sup1))
     supimg = U.build_elf(bool(le), bool(is64), 62, 0, supsecs)
-    form = 0x1d if enc == 'sup' else 0x1f21                # DW_FORM_strp_sup / DW_FORM_GNU_strp_alt
     link = (b'.debug_sup', 1, 0, 0, sup0) if enc == 'sup' else (b'.gnu_debugaltlink', 1, 0, 0, alt)
     base = [(b'.text', 1, 6, 0x1000, b'\xc3'), (b'.debug_abbrev', 1, 0, 0, abbrev), (b'.debug_info', 1, 0, 0, info)]
     a_img = U.build_elf(bool(le), bool(is64), 62, 0, base + [
         (b'.debug_line', 1, 0, 0, _line_unit(bool(le), asz, form, dirs, files)),
         (b'.debug_str', 1, 0x30, 0, s3), (b'.debug_line_str', 1, 0x30, 0, s3), link])
     pform = 0x0e if ref == 'strp' else 0x1f                # DW_FORM_strp / DW_FORM_line_strp
-    b_img = U.build_elf(bool(le), bool(is64), 62, 0, base + [
+    base_b = [(b'.text', 1, 6, 0x1000, b'\xc3'), (b'.debug_abbrev', 1, 0, 0, abbrev_b), (b'.debug_info', 1, 0, 0, info_b)]
+    b_img = U.build_elf(bool(le), bool(is64), 62, 0, base_b + [
         (b'.debug_line', 1, 0, 0, _line_unit(bool(le), asz, pform, dirs, files)),
         (b'.debug_str', 1, 0x30, 0, s1 if ref == 'strp' else s3), (b'.debug_line_str', 1, 0x30, 0, s3 if ref == 'strp' else s1)])
-    cut = lambda o: s1[o:s1.index(b'\0', o)]
-    literal = [[cut(o) for o in dirs], [[cut(o), d] for o, d in files], 1]
+    literal = [[cut(s1, o) for o in dirs], [[cut(s1, o), d] for o, d in files], 1]
     plain = framework.impl_call(_line_names, b_img, None)
     got = framework.impl_call(_line_names, a_img, {supname: supimg})
+    # the entries: strings behind DW_FORM_strp / strp_sup / GNU_strp_alt = the same entries with inline strings
+    d_plain = framework.impl_call(_top_die_strings, b_img, None, 'bytesio', True)
+    d_got = framework.impl_call(_top_die_strings, a_img, {supname: supimg}, sk, True)
+    ctx.record('lnsup_die', a, impl=d_got, spec=d_plain, model=None, in_domain=isinstance(d_plain, list) and d_plain[0] != 'err',
+               nontrivial=True, key='C11/entry-strings-behind-sup-link-differ')
     ctx.record(kind, a, impl=got, spec=plain, model=None, in_domain=plain == literal, nontrivial=True,
                key='C11/line-table-behind-sup-link-differs')
     ctx.record('lnsup_plain', a, impl=plain, spec=literal, model=None, in_domain=True, nontrivial=True,
@@ -1322,7 +1405,10 @@ def h_presence_tt(ctx, kind, a):
     (plus decoys): presence is reported exactly when .debug_info / .zdebug_info (non-strictly also .eh_frame) exists;
     link carriers do not count"""
     from elftools.elf.elffile import ELFFile
-    le, is64, mask, strict, ld, seed = a
+    le, is64, mask, strict, ld, seed = a[:6]
+    types = a[6] if len(a) > 6 else [1] * 6
+    sk = a[7] if len(a) > 7 else 'bytesio'
+    ctx.bump('stream_kind', sk)
     rng = _mk_rng(seed)
     lname = b'x.debug'
     bodies = {b'.debug_info': b'\0' * 11, b'.zdebug_info': b'ZLIB' + b'\0' * 8 + zlib.compress(b''),
@@ -1334,15 +1420,28 @@ def h_presence_tt(ctx, kind, a):
             (b'gnu_debuglink', 1, 0, 0, b'n'), (b'.eh_frame_hdr', 1, 2, 0x3000, b'hdr')]
     for k, nm in enumerate(TT_NAMES):
         if mask >> k & 1:
-            secs.append((nm, 1, 2 if nm == b'.eh_frame' else 0, 0x2000 if nm == b'.eh_frame' else 0, bodies[nm]))
+            secs.append((nm, types[k], 2 if nm == b'.eh_frame' else 0, 0x2000 if nm == b'.eh_frame' else 0, bodies[nm]))
     rng.shuffle(secs)
     img = U.build_elf(bool(le), bool(is64), 62, 0, secs)
     (m, s), (hm, lm) = yield [['presence', img, strict], ['link', img]]
     loader = _loader_of({}) if ld else None
+    offered = []
     def run():
-        e = ELFFile(io.BytesIO(img), loader)
-        return [int(e.has_dwarf_info(bool(strict))), int(e.has_dwarf_link())]
+        e = ELFFile(_stream(img, sk), loader)
+        r = [int(e.has_dwarf_info(bool(strict))), int(e.has_dwarf_link())]
+        try:                                             # what get_dwarf_info() then offers
+            di = e.get_dwarf_info(follow_links=False)
+            offered.append([int(di.debug_info_sec is not None), int(di.eh_frame_sec is not None)])
+        except Exception as ex:                          # noqa: e.g. a .zdebug_info without its framing
+            offered.append(['err', type(ex).__name__])
+        return r
     impl = framework.impl_call(run)
+    if offered and offered[0][0] != 'err':
+        o = offered[0]
+        ctx.record('presence_offer', a, impl=[impl[0] if isinstance(impl, list) else impl, o],
+                   spec=[int(bool(o[0]) or (not strict and bool(o[1]))), [int(bool(mask & 3)), int(bool(mask & 4))]],
+                   model=None, in_domain=True, nontrivial=True, key='C11/presence-vs-offered-sections')
+    ctx.bump('presence_types', ','.join(str(t) for t in sorted(set(types[k] for k in range(6) if mask >> k & 1))) or 'none')
     formula = [int(bool(mask & 1) or bool(mask & 2) or (not strict and bool(mask & 4))), int(bool(mask & 8))]
     spec = [s[1] if s != 'none' else 'none', formula[1]]
     model = [m[1] if m[0] == 'ok' else m, hm[1] if hm[0] == 'ok' else hm]
